@@ -741,7 +741,6 @@ func (eng *Engine) lockDiscipline(fns []*ssa.Function, owner, field, mutex strin
 	return bad, covered
 }
 
-
 // ownedObject: allocated by this function, or just returned to it by a constructor call (not yet published).
 func ownedObject(v ssa.Value) bool {
 	switch x := v.(type) {
@@ -755,7 +754,6 @@ func ownedObject(v ssa.Value) bool {
 	}
 	return false
 }
-
 
 // relNameBound: "(*T).M" for the synthetic bound-method wrapper "(*T).M$bound".
 func relNameBound(f *ssa.Function) string {
